@@ -265,6 +265,10 @@ func cmdReplay(args []string) int {
 		fmt.Printf("VIOLATION property=%s replay=%s\n", id, args[0])
 		return 1
 	}
+	if len(rep.Inconcl) > 0 {
+		fmt.Printf("INCONCLUSIVE: %v\n", rep.Inconcl)
+		return 2
+	}
 	fmt.Printf("replay of %s: property %s held on %d steps (%d oracle evaluations)\n", args[0], id, rep.Steps, sumMap(rep.Evals))
 	return 0
 }
